@@ -70,11 +70,18 @@ def sem_mode(b, p, kind):
 class ArgSet:
   """one symbolic argument tuple for a builder"""
 
-  def __init__(self, b, kinds, tag, nlist=0, nargs=None):
+  def __init__(self, b, kinds, tag, nlist=0, nargs=None, kwnames=()):
     self.b, self.kinds, self.tag = b, kinds, tag
     self.pvs, self.dom = [], []
+    self.kw = {}  # keyword arguments of the call: name -> PV (call order)
     n = len(kinds) if nargs is None else nargs
-    for i, (p, k) in enumerate(zip(b["params"][:n], kinds[:n])):
+    todo = [(i, p, k, False) for i, (p, k) in enumerate(zip(b["params"][:n], kinds[:n]))]
+    for nm_ in kwnames:
+      i = b["params"].index(nm_)
+      if i < n:
+        raise ps.PyUnsupported(f"{b['name']}: parameter {nm_} given both positionally and by keyword")
+      todo.append((i, nm_, kinds[i], True))
+    for i, p, k, is_kw in todo:
       nm = f"{tag}.{p}"
       if k == "num":
         v = ps.pv_num(nm)
@@ -103,22 +110,41 @@ class ArgSet:
           v = ps.pv_list(els)
       else:
         raise ps.PyUnsupported(f"{b['name']}: parameter {p} of unmodelled kind {k}")
-      self.pvs.append(v)
+      if is_kw:
+        self.kw[p] = v
+      else:
+        self.pvs.append(v)
 
-  def filled(self):
-    """(value term per parameter) after defaults are applied, for the semantic comparison"""
+  def named(self):
+    """(parameter name, PV) of everything passed, positional first"""
+    return list(zip(self.b["params"], self.pvs)) + list(self.kw.items())
+
+  def filled(self, forward_kwargs=True):
+    """value per parameter as the builder receives it: positional, then keywords (if the wrapper forwards them), then defaults.
+    None = the call would raise TypeError (missing argument)"""
     vals = list(self.pvs)
     nd = len(self.b["defaults"])
     for i in range(len(vals), len(self.b["params"])):
-      d = self.b["defaults"][i - (len(self.b["params"]) - nd)]
+      p = self.b["params"][i]
+      if forward_kwargs and p in self.kw:
+        vals.append(self.kw[p])
+        continue
+      di = i - (len(self.b["params"]) - nd)
+      if di < 0:
+        return None
+      d = self.b["defaults"][di]
       vals.append(ps.PV("num", isbool=z3.BoolVal(isinstance(d, bool)), v=z3.IntVal(int(d))))
     return vals
 
 
-def sem_equal(b, kinds, A, B):
-  """the two argument tuples specialise the builder identically (Python == per parameter; objects by what the builder reads)"""
+def sem_equal(b, kinds, A, B, forward_kwargs=True):
+  """the two calls specialise the builder identically (Python == per parameter as far as it reaches the builder; objects by
+  what the builder reads)"""
   out = []
-  for p, k, x, y in zip(b["params"], kinds, A.filled(), B.filled()):
+  fa, fb = A.filled(forward_kwargs), B.filled(forward_kwargs)
+  if fa is None or fb is None:
+    raise ps.PyUnsupported(f"{b['name']}: call shape leaves a parameter without value")
+  for p, k, x, y in zip(b["params"], kinds, fa, fb):
     out.append(pv_equal(b, p, k, x, y))
   return z3.And(*out) if out else z3.BoolVal(True)
 
@@ -178,13 +204,15 @@ def replay_same(ctx, b, A, B, other=None, Bb=None):
     a1 = [concretize(model, v, b, p) for v, p in zip(A.pvs, b["params"])]
     b2 = Bb or b
     a2 = [concretize(model, v, b2, p) for v, p in zip(B.pvs, b2["params"])]
+    kw1 = {p: concretize(model, v, b, p) for p, v in A.kw.items()}
+    kw2 = {p: concretize(model, v, b2, p) for p, v in B.kw.items()}
     f1, f2 = get_builder(b), get_builder(b2)
-    k1 = f1(*a1)
-    k2 = f2(*a2)
+    k1 = f1(*a1, **kw1)
+    k2 = f2(*a2, **kw2)
     same = k1 is k2
     detail = ""
     try:
-      fresh = f2.__wrapped__(*a2)
+      fresh = f2.__wrapped__(*a2, **kw2)
       c1 = {k: repr(v)[:60] for k, v in inspect.getclosurevars(k1.func).nonlocals.items()}
       c2 = {k: repr(v)[:60] for k, v in inspect.getclosurevars(fresh.func).nonlocals.items()}
       detail = f"; closure of cached kernel {c1} vs closure a fresh build would have {c2}; cached source line {k1.func.__code__.co_firstlineno} vs fresh {fresh.func.__code__.co_firstlineno}"
@@ -193,7 +221,7 @@ def replay_same(ctx, b, A, B, other=None, Bb=None):
     os.makedirs(os.path.join(report.VERIF, "replays", PID), exist_ok=True)
     path = os.path.join(report.VERIF, "replays", PID, f"key.{b['module']}.{b['name']}.{b2['module']}.{b2['name']}.json")
     with open(path, "w") as f:
-      json.dump({"property": PID, "builder1": f"{b['module']}.{b['name']}", "args1": repr(a1), "builder2": f"{b2['module']}.{b2['name']}", "args2": repr(a2), "same_kernel_object": same, "detail": detail, "how": "import the two builders from mujoco_warp._src.<module>, call builder1(*args1) then builder2(*args2): the second call returns the first call's kernel from _KERNEL_CACHE"}, f)
+      json.dump({"property": PID, "builder1": f"{b['module']}.{b['name']}", "args1": repr(a1), "kwargs1": repr(kw1), "builder2": f"{b2['module']}.{b2['name']}", "args2": repr(a2), "kwargs2": repr(kw2), "same_kernel_object": same, "detail": detail, "how": "import the two builders from mujoco_warp._src.<module>, call builder1(*args1, **kwargs1) then builder2(*args2, **kwargs2) in one process: the second call returns the first call's kernel from _KERNEL_CACHE although a fresh build would differ"}, f)
     return same, path
 
   return _rp
@@ -202,40 +230,74 @@ def replay_same(ctx, b, A, B, other=None, Bb=None):
 # ----------------------------------------------------------------------------------------------------- key units
 
 
-def builder_queries(ctx, b, kinds, tag=""):
+def call_shapes(b, ke, callsites):
+  """the ways the host can call the builder: (number of positional args, keyword names).  Positional arities within the
+  defaults; keyword shapes = those at the real call sites (AST scan), possible only if the wrapper accepts **kwargs"""
+  nd, np_ = len(b["defaults"]), len(b["params"])
+  shapes = [(n, ()) for n in range(np_ - nd, np_ + 1)]
+  notes = []
+  for npos, kws in sorted(callsites.get(b["name"], ())):
+    if not kws:
+      if (npos, ()) not in shapes:
+        notes.append(f"{b['name']}: a call site passes {npos} positional arguments (signature takes {np_ - nd}..{np_}): TypeError at run time")
+      continue
+    if ke.kwarg is None:
+      notes.append(f"{b['name']}: a call site passes keywords {list(kws)} but the cache_kernel wrapper takes none: TypeError at run time")
+      continue
+    if any(k not in b["params"][npos:] for k in kws):
+      notes.append(f"{b['name']}: call site keywords {list(kws)} do not name parameters after the {npos} positional ones")
+      continue
+    if (npos, kws) not in shapes:
+      shapes.append((npos, kws))
+  return shapes, notes
+
+
+def arg_names(names, S):
+  for p, v in S.named():
+    if v.kind == "num":
+      names[f"{S.tag}.{p}"] = v.v
+      names[f"{S.tag}.{p}.isbool"] = v.isbool
+    elif v.kind == "sized":
+      names[f"{S.tag}.{p}.size"] = v.size
+      names[f"{S.tag}.{p}.id"] = v.ident
+
+
+def builder_queries(ctx, b, kinds, tag="", callsites=None, shapes=None):
   from mujoco_warp._src import warp_util
 
   hm = ps.HashModel()
   ke = ps.KeyEval(warp_util.cache_kernel, hm)
   name_pv = ps.pv_str(0)
-  nd = len(b["defaults"])
-  np_ = len(b["params"])
-  arities = list(range(np_ - nd, np_ + 1))
+  if shapes is None:
+    shapes, notes = call_shapes(b, ke, callsites or {})
+    ctx.notes.extend(notes)
   listlens = [0]
   if "list" in kinds:
     listlens = list(range(0, 4 if ctx.tier == "quick" else 6))
-  for n1, n2 in itertools.combinations_with_replacement(arities, 2):
+  for s1, s2 in itertools.combinations_with_replacement(shapes, 2):
     for l1, l2 in itertools.product(listlens, repeat=2) if "list" in kinds else [(0, 0)]:
       if l1 > l2:
         continue
       hm.axioms.clear(), hm.tuple_apps.clear(), hm.str_apps.clear()
-      A, B = ArgSet(b, kinds, "a", l1, n1), ArgSet(b, kinds, "b", l2, n2)
-      k1, k2 = ke.key_for(name_pv, A.pvs), ke.key_for(name_pv, B.pvs)
+      A, B = ArgSet(b, kinds, "a", l1, s1[0], s1[1]), ArgSet(b, kinds, "b", l2, s2[0], s2[1])
+      if A.filled(True) is None or B.filled(True) is None:
+        continue  # such a call raises TypeError
+      k1, k2 = ke.key_for(name_pv, A.pvs, A.kw), ke.key_for(name_pv, B.pvs, B.kw)
+      fwd = ke.forwards_kwargs
+      if (A.kw or B.kw) and not fwd:
+        ctx.notes.append(f"{b['name']}: the wrapper accepts keyword arguments but does not hand them to the builder (they are ignored)")
       sess = ctx.session(A.dom + B.dom + hm.axioms)
-      q = f"{b['name']}{tag}" + (f"/nargs{n1},{n2}" if len(arities) > 1 else "") + (f"/len{l1},{l2}" if "list" in kinds else "")
+
+      def shp(sh):
+        return str(sh[0]) + ("+" + "+".join(sh[1]) if sh[1] else "")
+
+      q = f"{b['name']}{tag}" + (f"/nargs{shp(s1)},{shp(s2)}" if len(shapes) > 1 else "") + (f"/len{l1},{l2}" if "list" in kinds else "")
       eq = ps.keys_equal(k1, k2)
-      if n1 == n2 and l1 == l2:
+      if s1 == s2 and l1 == l2:
         ctx.reach(sess, f"twin:{q}", eq)
       names = {}
-      for S in (A, B):
-        for v, p in zip(S.pvs, b["params"]):
-          if v.kind == "num":
-            names[f"{S.tag}.{p}"] = v.v
-            names[f"{S.tag}.{p}.isbool"] = v.isbool
-          elif v.kind == "sized":
-            names[f"{S.tag}.{p}.size"] = v.size
-            names[f"{S.tag}.{p}.id"] = v.ident
-      ctx.prove(sess, f"distinct-args-distinct-keys/{q}", z3.Implies(eq, sem_equal(b, kinds, A, B)), names=names, replay=replay_same(ctx, b, A, B), desc=f"{b['module']}.{b['name']}: two argument tuples that specialise the kernel differently get the same _KERNEL_CACHE key, the second model/configuration silently runs the first one's kernel")
+      arg_names(names, A), arg_names(names, B)
+      ctx.prove(sess, f"distinct-args-distinct-keys/{q}", z3.Implies(eq, sem_equal(b, kinds, A, B, fwd)), names=names, replay=replay_same(ctx, b, A, B), desc=f"{b['module']}.{b['name']}: two calls whose (positional, keyword) arguments specialise the kernel differently get the same _KERNEL_CACHE key, the second model/configuration silently runs the first one's kernel")
   return ke
 
 
@@ -243,13 +305,16 @@ def unit_key_module(name, modules):
   def run(ctx):
     from mujoco_warp._src import warp_util
 
-    builders = [b for b in ps.scan_builders(src_dir()) if b["module"] in modules]
+    allb = ps.scan_builders(src_dir())
+    builders = [b for b in allb if b["module"] in modules]
+    callsites = ps.scan_callsites(src_dir(), {b["name"] for b in allb})
     ctx.encode(warp_util.cache_kernel)
     ctx.bound(int_args=f"0 <= x <= {INT_HI}", list_len="<= 3 (quick) / 5 (thorough) entries per dispatch list")
     ctx.assume(
       "integer specialisation arguments are sizes, counts, iteration limits, enum values or bit masks: 0 <= x < 2^31 (the harvested call sites pass nothing else; CPython hashes -1 and -2, and x and x + 2^61-1, alike)",
       "CPython tuple hashing (xxHash-style mixing) and str hashing (SipHash) are modelled as collision-free functions of the element hashes / the string",
       "two argument tuples specialise a builder identically iff they are equal under Python == per parameter (True == 1); a TileSet parameter counts by the attributes the builder reads (AST: only .size)",
+      "call shapes: every positional arity the defaults allow, plus the keyword shapes found at the real call sites (AST scan of mujoco_warp/_src); positional and keyword arguments count as far as the wrapper hands them to the builder",
     )
     for b in builders:
       kinds = kinds_from_annotation(b)
@@ -260,7 +325,7 @@ def unit_key_module(name, modules):
       for p, k in zip(b["params"], kinds):
         if k == "sized" and sem_mode(b, p, k) == "identity":
           ctx.notes.append(f"{b['name']}: parameter {p} reaches the kernel as an object (reads {b['reads'][p]}), compared by identity")
-      builder_queries(ctx, b, kinds)
+      builder_queries(ctx, b, kinds, callsites=callsites)
     # the model really contains the CPython quirk the precondition excludes
     ints = [(b, i) for b in builders for i, a in enumerate(b["ann"]) if a == "int"]
     if ints:
@@ -286,16 +351,20 @@ def unit_key_cross(ctx):
   ctx.assume("str hashing (SipHash, salted per process) is collision-free on the builder names", f"integer arguments 0 <= x <= {INT_HI}")
   names = sorted({b["name"] for b in builders})
   sid = {n: i for i, n in enumerate(names)}
-  # groups: (number of passed args, kind vector) -> builder indices
+  # groups: (number of positional args, their kinds, keyword names, their kinds) -> builder indices
   groups = {}
+  callsites = ps.scan_callsites(src_dir(), set(names))
+  ke0 = ps.KeyEval(warp_util.cache_kernel, ps.HashModel())
   for bi, b in enumerate(builders):
     kinds = kinds_from_annotation(b)
     if any(k.startswith("?") for k in kinds):
       ctx.error(f"{b['module']}.{b['name']}: unmodelled parameter kind {kinds}")
       continue
-    nd = len(b["defaults"])
-    for n in range(len(kinds) - nd, len(kinds) + 1):
-      groups.setdefault((n, tuple(kinds[:n])), []).append(bi)
+    shapes, notes = call_shapes(b, ke0, callsites)
+    for npos, kws in shapes:
+      if ArgSet(b, kinds, "t", 0, npos, kws).filled(True) is None:
+        continue
+      groups.setdefault((npos, tuple(kinds[:npos]), tuple(kws), tuple(kinds[b["params"].index(k)] for k in kws)), []).append(bi)
   ctx.notes.append(f"{len(builders)} @cache_kernel builders, {len(names)} distinct names, {len(groups)} (arity, kinds) groups")
   keys = sorted(groups)
   nameid = z3.Function("nameid", z3.IntSort(), z3.IntSort())
@@ -312,15 +381,16 @@ def unit_key_cross(ctx):
     i, j = z3.Int("builder_i"), z3.Int("builder_j")
     b1, b2 = builders[m1[0]], builders[m2[0]]
     # generic parameter names: the members of a group share arity and kinds
-    G1 = {"name": "B1", "module": "", "params": [f"p{k}" for k in range(g1[0])], "ann": [], "defaults": [], "reads": {}}
-    G2 = {"name": "B2", "module": "", "params": [f"p{k}" for k in range(g2[0])], "ann": [], "defaults": [], "reads": {}}
+    G1 = {"name": "B1", "module": "", "params": [f"p{k}" for k in range(g1[0])] + list(g1[2]), "ann": [], "defaults": [], "reads": {}}
+    G2 = {"name": "B2", "module": "", "params": [f"p{k}" for k in range(g2[0])] + list(g2[2]), "ann": [], "defaults": [], "reads": {}}
     for l1, l2 in [(0, 0), (1, 1), (2, 2), (0, 1), (1, 2)] if ("list" in g1[1] or "list" in g2[1]) else [(0, 0)]:
       hm.axioms.clear(), hm.tuple_apps.clear(), hm.str_apps.clear()
-      A, B = ArgSet(G1, list(g1[1]), "a", l1), ArgSet(G2, list(g2[1]), "b", l2)
-      k1 = ke.key_for(ps.pv_str(nameid(i)), A.pvs)
-      k2 = ke.key_for(ps.pv_str(nameid(j)), B.pvs)
+      A, B = ArgSet(G1, list(g1[1]) + list(g1[3]), "a", l1, g1[0], g1[2]), ArgSet(G2, list(g2[1]) + list(g2[3]), "b", l2, g2[0], g2[2])
+      k1 = ke.key_for(ps.pv_str(nameid(i)), A.pvs, A.kw)
+      k2 = ke.key_for(ps.pv_str(nameid(j)), B.pvs, B.kw)
       sess = ctx.session(table + A.dom + B.dom + hm.axioms + [z3.Or(*[i == x for x in m1]), z3.Or(*[j == x for x in m2]), i != j])
-      q = f"n{g1[0]}:{''.join(k[0] for k in g1[1])}~n{g2[0]}:{''.join(k[0] for k in g2[1])}" + (f"/len{l1},{l2}" if l1 or l2 else "")
+      gs = lambda g: f"n{g[0]}:{''.join(k[0] for k in g[1])}" + ("+" + "+".join(g[2]) if g[2] else "")
+      q = f"{gs(g1)}~{gs(g2)}" + (f"/len{l1},{l2}" if l1 or l2 else "")
       ctx.reach(sess, f"twin:{q}", True)
 
       def rp(model, A=A, B=B):
@@ -361,9 +431,9 @@ def harvest_types(steps=1):
       if callable(v) and getattr(v, "__code__", None) is wrapcode and getattr(v, "__module__", None) == mod.__name__:
 
         def mk(v=v, key=(n.name, k)):
-          def proxy(*a):
-            seen[key].add(tuple((type(x), (x if isinstance(x, (int, float, bool)) else None)) for x in a))
-            return v(*a)
+          def proxy(*a, **kw):
+            seen[key].add((tuple((type(x), (x if isinstance(x, (int, float, bool)) else None)) for x in a), tuple((k, type(x), (x if isinstance(x, (int, float, bool)) else None)) for k, x in kw.items())))
+            return v(*a, **kw)
 
           return proxy
 
@@ -415,6 +485,7 @@ def unit_key_observed(ctx):
 
   ctx.encode(warp_util.cache_kernel)
   builders = {(b["module"], b["name"]): b for b in ps.scan_builders(src_dir())}
+  callsites = ps.scan_callsites(src_dir(), {k[1] for k in builders})
   seen = harvest_types()
   ctx.notes.append(f"side condition (enumeration): {sum(len(v) for v in seen.values())} distinct runtime argument tuples of {len(seen)} builders harvested from step() on the corpus")
   nq = 0
@@ -424,19 +495,30 @@ def unit_key_observed(ctx):
       ctx.error(f"harvested builder {key} was not found by the source scan")
       continue
     ann = kinds_from_annotation(b)
-    for tup in sorted(tuples, key=repr):
+    for tup, kwt in sorted(tuples, key=repr):
       kinds = [kind_of_type(t) for t, _ in tup]
-      for (t, v), p in zip(tup, b["params"]):
+      for (t, v), p in list(zip(tup, b["params"])) + [((t, v), k) for k, t, v in kwt]:
         if isinstance(v, int) and not isinstance(v, bool) and not (0 <= v <= INT_HI):
           ctx.error(f"{key}: call site passed {p}={v}, outside the assumed integer range")
       full = kinds + ann[len(kinds) :]
-      if full != ann:
-        # a kind the annotation does not announce: decide the key property for what the host really passes
+      bad_kw = [k for k, t, v in kwt if k not in b["params"][len(tup) :]]
+      if bad_kw:
+        ctx.error(f"{key}: observed keyword argument(s) {bad_kw} do not name trailing parameters of the builder")
+        continue
+      for k, t, v in kwt:
+        full[b["params"].index(k)] = kind_of_type(t)
+      shape = (len(tup), tuple(k for k, t, v in kwt))
+      known = shape in callsites.get(b["name"], set()) or not kwt
+      if full != ann or not known:
+        # a kind the annotation does not announce / a keyword shape the source scan did not see: decide the key property
+        # for what the host really passes
         nq += 1
         if any(k.startswith("?") for k in full):
-          ctx.error(f"{key}: runtime argument types {[t.__name__ for t, _ in tup]} have no modelled kind")
+          ctx.error(f"{key}: runtime argument types {[t.__name__ for t, _ in tup]} {[(k, t.__name__) for k, t, v in kwt]} have no modelled kind")
           continue
-        builder_queries(ctx, b, full, tag=f"@observed[{','.join(t.__name__ for t, _ in tup)}]")
+        nd, np_ = len(b["defaults"]), len(b["params"])
+        shapes = [(n, ()) for n in range(np_ - nd, np_ + 1)] + ([shape] if kwt else [])
+        builder_queries(ctx, b, full, tag=f"@observed[{','.join(t.__name__ for t, _ in tup)}{''.join(',' + k + '=' + t.__name__ for k, t, v in kwt)}]", shapes=shapes)
   # at least one solver query: the observed kinds of the list-taking builder
   sess = ctx.session([])
   ctx.reach(sess, "twin:harvest-nonempty", z3.BoolVal(len(seen) > 10))
@@ -468,15 +550,18 @@ def unit_hashmodel(ctx):
     def __init__(self, size):
       self.size = size
 
-  def dummy_builder(*a):
+  def dummy_builder(*a, **kw):
     return object()
 
   wrapped = warp_util.cache_kernel(dummy_builder)
   cases = [(True, 3), (1, False), (-1,), (-2,), (ps.M61,), (0, 1, 2, 3, 4), (Sized(16),), (Sized(5), True), (types.ConeType.ELLIPTIC, 64)]
   b = {"name": "dummy_builder", "module": "", "params": [f"p{k}" for k in range(8)], "ann": [], "defaults": [], "reads": {}}
-  for case in cases:
+  cases = [(c, {}) for c in cases]
+  if ke.kwarg is not None:
+    cases += [((True,), {"warmstart": False}), ((3,), {"b": 1, "a": True}), ((), {"x": 7})]
+  for case, ckw in cases:
     before = set(warp_util._KERNEL_CACHE)
-    wrapped(*case)
+    wrapped(*case, **ckw)
     new = set(warp_util._KERNEL_CACHE) - before
     if len(new) != 1:
       ctx.error(f"real wrapper did not add exactly one cache entry for {case}")
@@ -485,21 +570,26 @@ def unit_hashmodel(ctx):
     kinds = ["sized" if isinstance(x, Sized) else "num" for x in case]
     A = ArgSet(b, kinds, "a")
     hm.axioms.clear(), hm.str_apps.clear()
-    key = ke.key_for(ps.pv_str(0), A.pvs)
+    KW = {k: ps.pv_num(f"kw.{k}") for k in ckw}
+    key = ke.key_for(ps.pv_str(0), A.pvs, KW)
     s = z3.Solver()
     for pv, x in zip(A.pvs, case):
       if pv.kind == "num":
         s.add(pv.isbool == isinstance(x, bool), pv.v == int(x))
       else:
         s.add(pv.size == x.size)
+    for k, x in ckw.items():
+      s.add(KW[k].isbool == isinstance(x, bool), KW[k].v == int(x))
+    for text, sid_ in ke.strids.items():
+      s.add(hm.HS(z3.IntVal(sid_)) == hash(text))
     s.add(hm.HS(z3.IntVal(0)) == hash("dummy_builder"))
     if s.check() != z3.sat:
       ctx.error("key evaluator: concrete evaluation unsat")
       continue
     warp_util._KERNEL_CACHE.pop(real_key, None)  # (-1,) and (-2,) really share a key
-    mk = tuple(kh.mval(s.model(), t) for t in key)
+    mk = ps.key_concrete(s.model(), key, kh.mval)
     if mk != tuple(real_key):
-      ctx.error(f"key evaluator disagrees with the real cache_kernel wrapper on {case}: model {mk}, real {real_key}")
+      ctx.error(f"key evaluator disagrees with the real cache_kernel wrapper on {case} {ckw}: model {mk}, real {real_key}")
   sess = ctx.session([])
   ctx.reach(sess, "twin:validated", z3.BoolVal(bad == 0))
   ctx.notes.append(f"hash model validated against CPython on {len(vals)} integers and all enum members; key evaluator validated against the real wrapper on {len(cases)} argument tuples")
